@@ -976,3 +976,410 @@ Proof.
   - intros [H _]. revert H. apply Forall_impl. intros tp. apply Hiff.
   - intros H. split; [|exact I]. revert H. apply Forall_impl. intros tp. apply Hiff.
 Qed.
+
+(* ======================================================================= *)
+(* 11. OffsetCommit (key 8, versions 0, 1, 2)                                *)
+(* ======================================================================= *)
+
+(* the model's per-partition encoder; `empty` is the encoded metadata string "" *)
+Definition m_commit_part (version : Z) (empty : bytes) : Z * Z -> res bytes :=
+  fun '(p, off) => Ok (enc_i32 p ++ enc_i64 off
+                       ++ (if version =? OFFSET_COMMIT_V1 then enc_i64 (-1) else []) ++ empty).
+
+Definition g_commit_part : parser (Z * Z * option bytes) :=
+  let? p := p_i32 in let? off := p_i64 in let? md := p_string in p_ret (p, off, md).
+Definition g_commit_part_v1 : parser (Z * Z * Z * option bytes) :=
+  let? p := p_i32 in let? off := p_i64 in let? stamp := p_i64 in let? md := p_string in p_ret (p, off, stamp, md).
+
+(* the client commits (partition, offset) with the empty (non-null) metadata string;
+   in v1 the timestamp is -1 ("now") *)
+Definition abs_commit_part (x : Z * Z) : Z * Z * option bytes := (fst x, snd x, Some []).
+Definition abs_commit_part_v1 (x : Z * Z) : Z * Z * Z * option bytes := (fst x, snd x, -1, Some []).
+
+Lemma elem_commit_part version empty : (version =? OFFSET_COMMIT_V1) = false -> enc_str [] = Ok empty ->
+  forall x b rest, wf_p32_v64 x -> m_commit_part version empty x = Ok b ->
+  g_commit_part (b ++ rest) = Some (abs_commit_part x, rest) /\ (0 < length b)%nat.
+Proof.
+  intros Hv He [p off] b rest [Hp Ho] H. cbn [fst snd] in *. unfold m_commit_part in H. rewrite Hv in H.
+  ok_inj H. split.
+  - rewrite <- !app_assoc. unfold g_commit_part.
+    erewrite p_bind_some by (apply p_i32_app; exact Hp).
+    erewrite p_bind_some by (apply p_i64_app; exact Ho).
+    rewrite app_nil_l.
+    erewrite p_bind_some by (apply p_string_enc; exact He). reflexivity.
+  - rewrite app_length. unfold enc_i32 at 1. rewrite be_enc_length. lia.
+Qed.
+
+Lemma elem_commit_part_v1 empty : enc_str [] = Ok empty ->
+  forall x b rest, wf_p32_v64 x -> m_commit_part 1 empty x = Ok b ->
+  g_commit_part_v1 (b ++ rest) = Some (abs_commit_part_v1 x, rest) /\ (0 < length b)%nat.
+Proof.
+  intros He [p off] b rest [Hp Ho] H. cbn [fst snd] in *. unfold m_commit_part in H.
+  change (1 =? OFFSET_COMMIT_V1) with true in H. ok_inj H. split.
+  - rewrite <- !app_assoc. unfold g_commit_part_v1.
+    erewrite p_bind_some by (apply p_i32_app; exact Hp).
+    erewrite p_bind_some by (apply p_i64_app; exact Ho).
+    erewrite p_bind_some by (apply p_i64_app; unfold in_i64; lia).
+    erewrite p_bind_some by (apply p_string_enc; exact He). reflexivity.
+  - rewrite app_length. unfold enc_i32 at 1. rewrite be_enc_length. lia.
+Qed.
+
+Definition abs_offset_commit (version : Z) (group : bytes) (tps : list (bytes * list (Z * Z))) : req_body :=
+  if version =? 1 then OffsetCommitRequestV1 group (-1) [] (abs_by_topic abs_commit_part_v1 tps)
+  else if version =? 2 then OffsetCommitRequestV2 group (-1) [] (-1) (abs_by_topic abs_commit_part tps)
+  else OffsetCommitRequestV0 group (abs_by_topic abs_commit_part tps).
+
+Definition commit_version_known (version : Z) : bool :=
+  (version =? OFFSET_COMMIT_V0) || (version =? OFFSET_COMMIT_V1) || (version =? OFFSET_COMMIT_V2).
+
+Lemma enc_offset_commit_req_eq corr cid group version tps :
+  enc_offset_commit_req corr cid group version tps =
+  if negb (commit_version_known version) then Panic (tag "Unknown offset commit version code")
+  else
+    let* h := enc_header API_KEY_OFFSET_COMMIT version corr cid in
+    let* g := enc_str group in
+    let* empty := enc_str [] in
+    let* b := enc_tps (m_commit_part version empty) tps in
+    Ok (h ++ g ++ (if version =? OFFSET_COMMIT_V1 then enc_i32 (-1) ++ empty
+                   else if version =? OFFSET_COMMIT_V2 then enc_i32 (-1) ++ empty ++ enc_i64 (-1)
+                   else []) ++ b).
+Proof. reflexivity. Qed.
+
+Lemma commit_version_known_iff version :
+  commit_version_known version = true <-> version = 0 \/ version = 1 \/ version = 2.
+Proof. unfold commit_version_known, OFFSET_COMMIT_V0, OFFSET_COMMIT_V1, OFFSET_COMMIT_V2. lia. Qed.
+
+Theorem C09_offset_commit_request : forall tps version group corr cid bs rest,
+  wf_by_topic wf_p32_v64 tps -> in_i32 corr ->
+  enc_offset_commit_req corr cid group version tps = Ok bs ->
+  parse_request (bs ++ rest) = Some (mk_hdr 8 version corr cid, abs_offset_commit version group tps, rest).
+Proof.
+  intros tps version group corr cid bs rest Hwf Hc H. rewrite enc_offset_commit_req_eq in H.
+  destruct (commit_version_known version) eqn:Ev; cbn [negb] in H; [|discriminate].
+  apply commit_version_known_iff in Ev.
+  apply bind_ok in H. destruct H as [h [Hh H]]. apply bind_ok in H. destruct H as [g [Hg H]].
+  apply bind_ok in H. destruct H as [empty [He H]]. apply bind_ok in H. destruct H as [b [Hb H]]. ok_inj H.
+  apply (parse_request_enc API_KEY_OFFSET_COMMIT version corr cid h _ rest);
+    [unfold in_i16, API_KEY_OFFSET_COMMIT; lia|unfold in_i16; lia|exact Hc|exact Hh|].
+  destruct Ev as [->|[->| ->]].
+  - change (p_body API_KEY_OFFSET_COMMIT 0) with p_offset_commit_v0. unfold p_offset_commit_v0.
+    change (0 =? OFFSET_COMMIT_V1) with false. change (0 =? OFFSET_COMMIT_V2) with false. cbv iota.
+    rewrite app_nil_l. rewrite <- !app_assoc.
+    erewrite p_bind_some by (apply p_str_enc; exact Hg).
+    erewrite p_bind_some by (eapply (p_by_topic_enc_tps _ _ _ _ (elem_commit_part 0 empty eq_refl He)); [exact Hwf|exact Hb]).
+    reflexivity.
+  - change (p_body API_KEY_OFFSET_COMMIT 1) with p_offset_commit_v1. unfold p_offset_commit_v1.
+    change (1 =? OFFSET_COMMIT_V1) with true. cbv iota.
+    rewrite <- !app_assoc.
+    erewrite p_bind_some by (apply p_str_enc; exact Hg).
+    erewrite p_bind_some by (apply p_i32_app; unfold in_i32; lia).
+    erewrite p_bind_some by (apply p_str_enc; exact He).
+    erewrite p_bind_some by (eapply (p_by_topic_enc_tps _ _ _ _ (elem_commit_part_v1 empty He)); [exact Hwf|exact Hb]).
+    reflexivity.
+  - change (p_body API_KEY_OFFSET_COMMIT 2) with p_offset_commit_v2. unfold p_offset_commit_v2.
+    change (2 =? OFFSET_COMMIT_V1) with false. change (2 =? OFFSET_COMMIT_V2) with true. cbv iota.
+    rewrite <- !app_assoc.
+    erewrite p_bind_some by (apply p_str_enc; exact Hg).
+    erewrite p_bind_some by (apply p_i32_app; unfold in_i32; lia).
+    erewrite p_bind_some by (apply p_str_enc; exact He).
+    erewrite p_bind_some by (apply p_i64_app; unfold in_i64; lia).
+    erewrite p_bind_some by (eapply (p_by_topic_enc_tps _ _ _ _ (elem_commit_part 2 empty eq_refl He)); [exact Hwf|exact Hb]).
+    reflexivity.
+Qed.
+
+Theorem C09_offset_commit_frame : forall tps version group corr cid bs,
+  wf_by_topic wf_p32_v64 tps -> in_i32 corr -> ulen bs <= i32_max ->
+  enc_offset_commit_req corr cid group version tps = Ok bs ->
+  parse_frame (frame bs) =
+  Some ({| api_key := 8; api_version := version; correlation_id := corr; client_id := Some cid |},
+        abs_offset_commit version group tps).
+Proof.
+  intros tps version group corr cid bs Hwf Hc Hlen H. apply parse_frame_of_request; [exact Hlen|].
+  apply C09_offset_commit_request; assumption.
+Qed.
+
+(* the three versions spelled out *)
+Corollary C09_offset_commit_v0_frame : forall tps group corr cid bs,
+  wf_by_topic wf_p32_v64 tps -> in_i32 corr -> ulen bs <= i32_max ->
+  enc_offset_commit_req corr cid group 0 tps = Ok bs ->
+  parse_frame (frame bs) =
+  Some ({| api_key := 8; api_version := 0; correlation_id := corr; client_id := Some cid |},
+        OffsetCommitRequestV0 group (abs_by_topic abs_commit_part tps)).
+Proof. intros tps group corr cid bs. exact (C09_offset_commit_frame tps 0 group corr cid bs). Qed.
+
+Corollary C09_offset_commit_v1_frame : forall tps group corr cid bs,
+  wf_by_topic wf_p32_v64 tps -> in_i32 corr -> ulen bs <= i32_max ->
+  enc_offset_commit_req corr cid group 1 tps = Ok bs ->
+  parse_frame (frame bs) =
+  Some ({| api_key := 8; api_version := 1; correlation_id := corr; client_id := Some cid |},
+        OffsetCommitRequestV1 group (-1) [] (abs_by_topic abs_commit_part_v1 tps)).
+Proof. intros tps group corr cid bs. exact (C09_offset_commit_frame tps 1 group corr cid bs). Qed.
+
+Corollary C09_offset_commit_v2_frame : forall tps group corr cid bs,
+  wf_by_topic wf_p32_v64 tps -> in_i32 corr -> ulen bs <= i32_max ->
+  enc_offset_commit_req corr cid group 2 tps = Ok bs ->
+  parse_frame (frame bs) =
+  Some ({| api_key := 8; api_version := 2; correlation_id := corr; client_id := Some cid |},
+        OffsetCommitRequestV2 group (-1) [] (-1) (abs_by_topic abs_commit_part tps)).
+Proof. intros tps group corr cid bs. exact (C09_offset_commit_frame tps 2 group corr cid bs). Qed.
+
+Lemma enc_str_nil : enc_str [] = Ok (enc_i16 0 ++ []).
+Proof. reflexivity. Qed.
+
+(* the one panic among the encoders: a version outside {0,1,2} *)
+Theorem C09_offset_commit_panic_iff : forall tps version group corr cid,
+  (exists w, enc_offset_commit_req corr cid group version tps = Panic w) <->
+  ~ (version = 0 \/ version = 1 \/ version = 2).
+Proof.
+  intros tps version group corr cid. rewrite <- commit_version_known_iff, enc_offset_commit_req_eq.
+  destruct (commit_version_known version) eqn:Ev; cbn [negb].
+  - split; [|intros H; exfalso; apply H; reflexivity]. intros [w H]. exfalso. revert H.
+    apply codec_only_panic.
+    apply codec_only_bind; [apply codec_only_enc_header|intros h _].
+    apply codec_only_bind; [apply codec_only_enc_str|intros g _].
+    apply codec_only_bind; [apply codec_only_enc_str|intros empty _].
+    apply codec_only_bind; [apply codec_only_enc_tps; intros [p off]; exact I|intros b _; exact I].
+  - split; [intros _ H; discriminate|intros _; eexists; reflexivity].
+Qed.
+
+Theorem C09_offset_commit_reject : forall tps version group corr cid e,
+  enc_offset_commit_req corr cid group version tps = Err e ->
+  e = ECodec /\ (long_str cid \/ long_str group \/ tps_too_long tps).
+Proof.
+  intros tps version group corr cid e H. rewrite enc_offset_commit_req_eq in H.
+  destruct (commit_version_known version) eqn:Ev; cbn [negb] in H; [|discriminate].
+  apply bind_err in H. destruct H as [H|[h [_ H]]].
+  { split; [exact (codec_only_err _ _ (codec_only_enc_header _ _ _ _) H)|left; eapply enc_header_err; exact H]. }
+  apply bind_err in H. destruct H as [H|[g [_ H]]]; [apply enc_str_err in H; tauto|].
+  apply bind_err in H. destruct H as [H|[empty [_ H]]]; [rewrite enc_str_nil in H; discriminate|].
+  apply bind_err in H. destruct H as [H|[b [_ H]]]; [|discriminate].
+  split.
+  - refine (codec_only_err _ _ _ H). apply codec_only_enc_tps. intros [p off]. exact I.
+  - right; right. apply enc_tps_err in H; [exact H|]. intros [p off]. discriminate.
+Qed.
+
+Theorem C09_offset_commit_ok_iff : forall tps version group corr cid,
+  (exists bs, enc_offset_commit_req corr cid group version tps = Ok bs) <->
+  (version = 0 \/ version = 1 \/ version = 2) /\ ulen cid <= i16_max /\ ulen group <= i16_max /\ tps_fit tps.
+Proof.
+  intros tps version group corr cid. rewrite <- commit_version_known_iff, enc_offset_commit_req_eq.
+  destruct (commit_version_known version) eqn:Ev; cbn [negb].
+  2:{ split; [intros [bs H]; discriminate|intros [H _]; discriminate]. }
+  rewrite (bind_ok_iff _ _ (ulen group <= i16_max /\ tps_fit tps)), enc_header_ok_iff; [tauto|]. intros h.
+  rewrite (bind_ok_iff _ _ (tps_fit tps)), enc_str_ok_iff; [reflexivity|]. intros g.
+  rewrite enc_str_nil. cbn [bind].
+  rewrite (bind_ok_iff _ _ True); [|intros b; apply ok_ex_iff].
+  rewrite enc_tps_ok_iff; [tauto|]. intros [p off]. eexists; reflexivity.
+Qed.
+
+(* ======================================================================= *)
+(* 12. Produce (key 0, version 0)                                            *)
+(* ======================================================================= *)
+
+(* the message-set bytes the model builds for one partition: the `buf'` of
+   enc_partition_produce (plain concatenation, or one wrapper message around the
+   compressed concatenation).  Their contents are the subject of another property. *)
+Definition model_message_set (cz : codecs) (compression : Z) (ms : list pmsg) : res bytes :=
+  let* buf := enc_messages ms in
+  if compression =? COMPRESSION_NONE then Ok buf
+  else if compression =? COMPRESSION_GZIP
+  then enc_message MESSAGE_MAGIC_BYTE COMPRESSION_GZIP (None, Some (gz_compress cz buf))
+  else enc_message MESSAGE_MAGIC_BYTE COMPRESSION_SNAPPY (None, Some (sn_compress cz buf)).
+
+Definition message_set_bytes (cz : codecs) (compression : Z) (ms : list pmsg) : bytes :=
+  match model_message_set cz compression ms with Ok b => b | _ => [] end.
+
+Lemma enc_partition_produce_eq cz compression p ms :
+  enc_partition_produce cz compression p ms =
+  (let* buf' := model_message_set cz compression ms in
+   let* b := enc_bytes buf' in Ok (enc_i32 p ++ b)).
+Proof.
+  unfold enc_partition_produce, model_message_set.
+  destruct (enc_messages ms) as [buf|e|w]; reflexivity.
+Qed.
+
+(* what goes on the wire for a partition is: Partition, MessageSetSize = |buf'|, buf' *)
+Lemma C09_produce_partition_bytes cz compression p ms b :
+  enc_partition_produce cz compression p ms = Ok b ->
+  exists buf', model_message_set cz compression ms = Ok buf' /\
+               message_set_bytes cz compression ms = buf' /\
+               ulen buf' <= i32_max /\
+               b = enc_i32 p ++ enc_i32 (ulen buf') ++ buf'.
+Proof.
+  intros H. rewrite enc_partition_produce_eq in H.
+  apply bind_ok in H. destruct H as [buf' [Hbuf H]]. apply bind_ok in H. destruct H as [b0 [Hb0 H]]. ok_inj H.
+  apply enc_bytes_ok in Hb0. destruct Hb0 as [-> Hlen].
+  exists buf'. unfold message_set_bytes. rewrite Hbuf. auto.
+Qed.
+
+Definition m_produce_part (cz : codecs) (compression : Z) : Z * list pmsg -> res bytes :=
+  fun '(p, ms) => enc_partition_produce cz compression p ms.
+Definition g_produce_part : parser (Z * bytes) := let? p := p_i32 in let? ms := p_sized in p_ret (p, ms).
+Definition abs_produce_part (cz : codecs) (compression : Z) (x : Z * list pmsg) : Z * bytes :=
+  (fst x, message_set_bytes cz compression (snd x)).
+Definition wf_produce_part (x : Z * list pmsg) : Prop := in_i32 (fst x).
+
+(* the per-topic partition count is written with an unchecked `as i32` *)
+Definition wf_produce (tps : produce_tps) : Prop :=
+  Forall (fun tp => Forall wf_produce_part (snd tp) /\ ulen (snd tp) <= i32_max) tps.
+
+Lemma elem_produce_part cz compression : forall x b rest,
+  wf_produce_part x -> m_produce_part cz compression x = Ok b ->
+  g_produce_part (b ++ rest) = Some (abs_produce_part cz compression x, rest) /\ (0 < length b)%nat.
+Proof.
+  intros [p ms] b rest Hp H. unfold wf_produce_part in Hp. cbn [fst snd] in *. unfold m_produce_part in H.
+  apply C09_produce_partition_bytes in H. destruct H as [buf' [_ [Habs [Hlen ->]]]]. split.
+  - rewrite <- !app_assoc. unfold g_produce_part.
+    erewrite p_bind_some by (apply p_i32_app; exact Hp).
+    erewrite p_bind_some by (apply p_sized_app; exact Hlen).
+    unfold abs_produce_part. cbn [fst snd]. rewrite Habs. reflexivity.
+  - rewrite app_length. unfold enc_i32 at 1. rewrite be_enc_length. lia.
+Qed.
+
+Lemma enc_produce_req_eq cz corr cid acks timeout compression tps :
+  enc_produce_req cz corr cid acks timeout compression tps =
+  (let* h := enc_header API_KEY_PRODUCE API_VERSION corr cid in
+   let* b := enc_array (enc_topic_unchecked (m_produce_part cz compression)) tps in
+   Ok (h ++ enc_i16 acks ++ enc_i32 timeout ++ b)).
+Proof. reflexivity. Qed.
+
+Theorem C09_produce_request : forall cz tps acks timeout compression corr cid bs rest,
+  wf_produce tps -> in_i16 acks -> in_i32 timeout -> in_i32 corr ->
+  enc_produce_req cz corr cid acks timeout compression tps = Ok bs ->
+  parse_request (bs ++ rest) =
+  Some (mk_hdr 0 0 corr cid,
+        ProduceRequest acks timeout (abs_by_topic (abs_produce_part cz compression) tps), rest).
+Proof.
+  intros cz tps acks timeout compression corr cid bs rest Hwf Ha Ht Hc H. rewrite enc_produce_req_eq in H.
+  apply bind_ok in H. destruct H as [h [Hh H]]. apply bind_ok in H. destruct H as [b [Hb H]]. ok_inj H.
+  apply (parse_request_enc API_KEY_PRODUCE API_VERSION corr cid h _ rest);
+    [unfold in_i16, API_KEY_PRODUCE; lia|unfold in_i16, API_VERSION; lia|exact Hc|exact Hh|].
+  change (p_body API_KEY_PRODUCE API_VERSION) with p_produce_v0. unfold p_produce_v0.
+  rewrite <- !app_assoc.
+  erewrite p_bind_some by (apply p_i16_app; exact Ha).
+  erewrite p_bind_some by (apply p_i32_app; exact Ht).
+  erewrite p_bind_some by (eapply (p_by_topic_enc_mixed _ _ _ _ (elem_produce_part cz compression)); [exact Hwf|exact Hb]).
+  reflexivity.
+Qed.
+
+Theorem C09_produce_frame : forall cz tps acks timeout compression corr cid bs,
+  wf_produce tps -> in_i16 acks -> in_i32 timeout -> in_i32 corr -> ulen bs <= i32_max ->
+  enc_produce_req cz corr cid acks timeout compression tps = Ok bs ->
+  parse_frame (frame bs) =
+  Some ({| api_key := 0; api_version := 0; correlation_id := corr; client_id := Some cid |},
+        ProduceRequest acks timeout (abs_by_topic (abs_produce_part cz compression) tps)).
+Proof.
+  intros cz tps acks timeout compression corr cid bs Hwf Ha Ht Hc Hlen H.
+  apply parse_frame_of_request; [exact Hlen|]. apply C09_produce_request; assumption.
+Qed.
+
+(* ---- why a produce request is refused ---- *)
+Definition long_opt (o : option bytes) : Prop := match o with Some b => long_arr b | None => False end.
+
+Lemma enc_opt_bytes_err o e : enc_opt_bytes o = Err e -> long_opt o.
+Proof. destruct o as [b|]; cbn [enc_opt_bytes long_opt]; intros H; [apply enc_bytes_err in H; tauto|discriminate]. Qed.
+Lemma codec_only_enc_opt_bytes o : codec_only (enc_opt_bytes o).
+Proof. destruct o as [b|]; cbn [enc_opt_bytes]; [apply codec_only_enc_bytes|exact I]. Qed.
+
+Lemma enc_message_err magic attr m e : enc_message magic attr m = Err e -> long_opt (fst m) \/ long_opt (snd m).
+Proof.
+  unfold enc_message. intros H.
+  apply bind_err in H. destruct H as [H|[k [_ H]]]; [left; eapply enc_opt_bytes_err; exact H|].
+  apply bind_err in H. destruct H as [H|[v [_ H]]]; [right; eapply enc_opt_bytes_err; exact H|discriminate].
+Qed.
+Lemma codec_only_enc_message magic attr m : codec_only (enc_message magic attr m).
+Proof.
+  unfold enc_message. apply codec_only_bind; [apply codec_only_enc_opt_bytes|intros k _].
+  apply codec_only_bind; [apply codec_only_enc_opt_bytes|intros v _]. exact I.
+Qed.
+
+Lemma ulen_be_enc n z : ulen (be_enc n z) = Z.of_nat n.
+Proof. unfold ulen. rewrite be_enc_length. reflexivity. Qed.
+
+(* a wrapper message (null key, value z) is 26 bytes longer than z *)
+Lemma enc_message_wrapper_ok magic attr z w :
+  enc_message magic attr (None, Some z) = Ok w -> ulen w = 26 + ulen z.
+Proof.
+  unfold enc_message. cbn [fst snd enc_opt_bytes bind]. intros H.
+  apply bind_ok in H. destruct H as [v [Hv H]]. cbv zeta in H. ok_inj H.
+  apply enc_bytes_ok in Hv. destruct Hv as [-> _].
+  unfold enc_i64, enc_i32, enc_i8. rewrite !ulen_app, !ulen_be_enc. lia.
+Qed.
+
+Definition compressed (cz : codecs) (compression : Z) (buf : bytes) : bytes :=
+  if compression =? COMPRESSION_GZIP then gz_compress cz buf else sn_compress cz buf.
+
+(* some int32 length of the partition's message set does not fit *)
+Definition partition_too_long (cz : codecs) (compression : Z) (ms : list pmsg) : Prop :=
+  Exists (fun m => long_opt (fst m) \/ long_opt (snd m)) ms \/
+  exists buf, enc_messages ms = Ok buf /\
+              if compression =? COMPRESSION_NONE then long_arr buf
+              else i32_max < 26 + ulen (compressed cz compression buf).
+
+Lemma codec_only_partition_produce cz compression p ms : codec_only (enc_partition_produce cz compression p ms).
+Proof.
+  unfold enc_partition_produce.
+  apply codec_only_bind; [apply codec_only_enc_all; intros m _; apply codec_only_enc_message|intros buf _].
+  apply codec_only_bind; [|intros buf' _; apply codec_only_bind; [apply codec_only_enc_bytes|intros b _; exact I]].
+  destruct (compression =? COMPRESSION_NONE); [exact I|].
+  destruct (compression =? COMPRESSION_GZIP); apply codec_only_enc_message.
+Qed.
+
+Lemma enc_partition_produce_err cz compression p ms e :
+  enc_partition_produce cz compression p ms = Err e -> partition_too_long cz compression ms.
+Proof.
+  unfold enc_partition_produce, partition_too_long, compressed. intros H.
+  apply bind_err in H. destruct H as [H|[buf [Hbuf H]]].
+  { left. apply enc_all_err in H. revert H. apply Exists_impl. intros m. apply enc_message_err. }
+  right. exists buf. split; [exact Hbuf|].
+  destruct (compression =? COMPRESSION_NONE) eqn:En.
+  - cbn [bind] in H. apply bind_err in H. destruct H as [H|[b [_ H]]]; [|discriminate].
+    apply enc_bytes_err in H. tauto.
+  - destruct (compression =? COMPRESSION_GZIP) eqn:Eg.
+    + apply bind_err in H. destruct H as [H|[w [Hw H]]].
+      * apply enc_message_err in H. cbn [fst snd long_opt] in H. unfold long_arr in H.
+        pose proof (ulen_nonneg (gz_compress cz buf)). lia.
+      * apply enc_message_wrapper_ok in Hw.
+        apply bind_err in H. destruct H as [H|[b [_ H]]]; [|discriminate].
+        apply enc_bytes_err in H. unfold long_arr in H. lia.
+    + apply bind_err in H. destruct H as [H|[w [Hw H]]].
+      * apply enc_message_err in H. cbn [fst snd long_opt] in H. unfold long_arr in H.
+        pose proof (ulen_nonneg (sn_compress cz buf)). lia.
+      * apply enc_message_wrapper_ok in Hw.
+        apply bind_err in H. destruct H as [H|[b [_ H]]]; [|discriminate].
+        apply enc_bytes_err in H. unfold long_arr in H. lia.
+Qed.
+
+Lemma codec_only_produce cz corr cid acks timeout compression tps :
+  codec_only (enc_produce_req cz corr cid acks timeout compression tps).
+Proof.
+  rewrite enc_produce_req_eq. apply codec_only_bind; [apply codec_only_enc_header|intros h _].
+  apply codec_only_bind; [|intros b _; exact I].
+  apply codec_only_enc_array. intros [t ps] _. unfold enc_topic_unchecked.
+  apply codec_only_bind; [apply codec_only_enc_str|intros n _].
+  apply codec_only_bind; [|intros b _; exact I].
+  apply codec_only_enc_array_unchecked. intros [p ms] _. apply codec_only_partition_produce.
+Qed.
+
+Theorem C09_produce_reject : forall cz tps acks timeout compression corr cid e,
+  enc_produce_req cz corr cid acks timeout compression tps = Err e ->
+  e = ECodec /\
+  (long_str cid \/ long_arr tps \/
+   Exists (fun tp => long_str (fst tp) \/
+                     Exists (fun pm => partition_too_long cz compression (snd pm)) (snd tp)) tps).
+Proof.
+  intros cz tps acks timeout compression corr cid e H.
+  split; [exact (codec_only_err _ _ (codec_only_produce _ _ _ _ _ _ _) H)|].
+  rewrite enc_produce_req_eq in H.
+  apply bind_err in H. destruct H as [H|[h [_ H]]]; [left; eapply enc_header_err; exact H|].
+  apply bind_err in H. destruct H as [H|[b [_ H]]]; [|discriminate].
+  right. apply enc_array_err in H. destruct H as [H|H]; [left; exact H|right].
+  revert H. apply Exists_impl. intros tp H.
+  apply enc_topic_unchecked_err in H. destruct H as [H|H]; [left; exact H|right].
+  revert H. apply Exists_impl. intros [p ms] H. cbn [snd]. unfold m_produce_part in H.
+  eapply enc_partition_produce_err; exact H.
+Qed.
+
+Theorem C09_produce_no_panic : forall cz tps acks timeout compression corr cid w,
+  enc_produce_req cz corr cid acks timeout compression tps <> Panic w.
+Proof. intros. apply codec_only_panic. apply codec_only_produce. Qed.
